@@ -65,6 +65,12 @@ static inline int64_t tq_exp_at(struct tq *q, size_t pos)
   __CPROVER_assert(pos < q->len, "[C12.deref] an iterator that is dereferenced points into the timer queue");
   return q->exp[q->head + pos];
 }
+/* *it for an iterator into the queue */
+static inline struct hrtimer *tq_t_at(struct tq *q, size_t pos)
+{
+  __CPROVER_assert(pos < q->len, "[C12.deref] an iterator that is dereferenced points into the timer queue");
+  return q->t[q->head + pos];
+}
 /* vector::erase(pos): elements before pos keep their place, elements after move down by one (at G_i) */
 extern size_t g_erase_pos; extern struct hrtimer *g_erased_t; extern size_t g_erase_calls;
 #define TQ_OLDIDX1(q, k) ((q)->head + (((k) < (q)->len) ? (k) : 0))
